@@ -33,7 +33,7 @@ impl Hazard {
 #[derive(Clone, Debug)]
 pub struct Line {
     pub text: String,
-    /// 'c' code, 'm' comment, 'b' blank, 'i' ignored
+    /// 'c' code, 'm' comment, 'b' blank, 'i' ignored, '?' left open by the property (comment end + code)
     pub class: char,
     /// the hazard this line carries, with a hazard-free variant of the line that has the same
     /// class and the same effect on the following lines (used to attribute a failure by repair)
@@ -346,6 +346,31 @@ fn piece(r: &mut Rng, f: &Family, p: &mut Program, allow: &[Hazard], ig: &mut Ig
                 }
                 t
             };
+            // "tight" layouts: the character after the opener completes a closer that would overlap
+            // the opener (`/*/`), the character after the closer completes an opener (`*/*p`); the
+            // markers do not overlap, so neither changes where the comment begins or ends
+            let mirror = s.chars().count() == 2 && e.chars().rev().collect::<String>() == s;
+            if mirror && r.chance(1, 4) {
+                let after_open: String = e.chars().skip(1).collect();
+                let after_close: String = s.chars().skip(1).collect();
+                p.shapes.push("block-tight");
+                match r.below(3) {
+                    0 => push(p, Line::plain(format!("{ind}{s}{after_open} {} {e}", plain_text(r)), 'm'), ig),
+                    1 => {
+                        push(p, Line::plain(format!("{ind}{s}{after_open} {}", plain_text(r)), 'm'), ig);
+                        push(p, Line::plain(format!("{ind} {}", plain_text(r)), 'm'), ig);
+                        push(p, Line::plain(format!("{ind} {e}"), 'm'), ig);
+                    }
+                    _ => {
+                        push(p, Line::plain(format!("{ind}{s} {}", plain_text(r)), 'm'), ig);
+                        // comment end and code on one line: the property leaves its class open ('?')
+                        push(p, Line::plain(format!("{ind} {} {e}{after_close}p = 1;", plain_text(r)), '?'), ig);
+                    }
+                }
+                p.shapes.push("code");
+                push(p, Line::plain(format!("{ind}{}", code_words(r)), 'c'), ig);
+                return;
+            }
             if n == 0 {
                 let t = inner(r, p);
                 push(p, t.wrap(&format!("{ind}{s}"), &e).line('m'), ig);
@@ -371,6 +396,15 @@ fn piece(r: &mut Rng, f: &Family, p: &mut Program, allow: &[Hazard], ig: &mut Ig
                 let mut t = plain_text(r);
                 if level > 0 && r.chance(1, 2) {
                     t += " ]] ";
+                }
+                if level == 0 && r.chance(1, 4) {
+                    // the closer's text occurs in the code before the comment starts
+                    p.shapes.push("lua-long-after-index");
+                    push(p, Line::plain(format!("{ind}local v = t[k[1]] --[[{t}"), '?'), ig);
+                    push(p, Line::plain(format!(" {} ", plain_text(r)), 'm'), ig);
+                    push(p, Line::plain(format!("{t}]]"), 'm'), ig);
+                    push(p, Line::plain(format!("{ind}{}", code_words(r)), 'c'), ig);
+                    return;
                 }
                 if n == 0 {
                     push(p, Line::plain(format!("{ind}--[{eq}[{t}]{eq}]"), 'm'), ig);
